@@ -285,7 +285,10 @@ MANIFEST_TEXT = {'C02': {'text': 'Lean: C02_full_v2 : C02_Statement_v2 (Props/C0
                  'renamedTextB, and by the metamorphic oracle).',
          'design_ref': 'DESIGN.md section 5 C18',
          'note': "R1: the *_any theorems need only o + D < 65536 (the older family additionally ORG >= $100 and says more about value renderings); R2's "
-                 'text-level lifting is per program; finding S1 repaired by 4e31349',
+                 'text-level lifting is per program; finding S1 repaired by 4e31349; since batch 8 (list elements with symbols) the R1 finish theorems carry '
+                 'the hypothesis ListsConst (no LABEL element in an FCB/FDB list: a jump table legitimately moves with the program, witness '
+                 "reloc_list_label_witness) and R2's RenOK the decidable NoPendingLists (list elements are literals) - both vacuous before, when such lists "
+                 'were rejected',
          'technique': 'Lean 4 proof (scanner canonical form; prefix stability through all passes) + metamorphic oracle on the implementation + differential '
                       'correspondence'},
  'C19': {'text': 'Lean: C19_full : C19_Statement - include_textual_full (for every file system, prefix, suffix and INCLUDE line: assembling with INCLUDE f '
@@ -382,9 +385,9 @@ MANIFEST_TEXT = {'C02': {'text': 'Lean: C02_full_v2 : C02_Statement_v2 (Props/C0
                  "reduced mod 65536, overflow and division by zero are diagnostics); symbols may contain '_' and '@' (C04_symbol_characters_fixed). The width "
                  "per operand position is C01's / C12's theorem (fit_operand_width).",
          'design_ref': 'DESIGN.md section 5 C04, section 6 C',
-         'note': 'no known finding left for C04 (C3, C4 and the operand-order finding are repaired: 831a353, 0f280be, bd9f69a); symbols inside FCB/FDB LISTS '
-                 "are finding C2 (C05); model limit: Python's recursion limit (about 480 nested EQU definitions) is not modelled, the model's fuel is the "
-                 'table length + 1',
+         'note': 'no known finding left for C04 (C3, C4 and the operand-order finding are repaired: 831a353, 0f280be, bd9f69a); symbols inside FCB/FDB lists '
+                 "are evaluated since e6da74c (C05's list theorems); model limit: Python's recursion limit (about 480 nested EQU definitions) is not modelled, "
+                 "the model's fuel is the table length + 1",
          'technique': 'Lean 4 proof (expression evaluator and address-offset lemmas) + differential correspondence + arithmetic oracle on decoded operand '
                       'values'},
  'C05': {'text': "Lean: C05_full proves C05_Statement at full strength on the model: a single FCB / FDB value emits its two's complement at one / two bytes "
@@ -393,10 +396,15 @@ MANIFEST_TEXT = {'C02': {'text': 'Lean: C02_full_v2 : C02_Statement_v2 (Props/C0
                  'exactly the characters of the parsed string, EQU/SETDP/NAM/END/INCLUDE/ORG emit nothing; C05_FCC_line_as_written / C05_FCC_line_bytes (since '
                  'fix d74c37d, GENERAL): for a line `label FCC d body d tail` with any non-blank delimiter d and any body of 8-bit characters without d - '
                  "blanks, runs of blanks, ';' and punctuation included - the bytes are exactly the characters of body and the comment is tail; symbols: "
-                 'C05_FCB/FDB/RMB/ORG_symbol, C05_undefined_symbol; whole-program kernel-checked witnesses through assemble. Remaining finding with witness: '
-                 'C05_finding_list_symbol (a symbol inside a LIST is rejected).',
+                 'C05_FCB/FDB/RMB/ORG_symbol, C05_undefined_symbol; whole-program kernel-checked witnesses through assemble. LISTS WITH SYMBOLS (since fix '
+                 'e6da74c; the former finding C2): C05_list_positions (literal positions keep their digits, an element that is a symbol or a two-term '
+                 'expression is evaluated), C05_list_elem_value_FCB/_FDB and _symbol_/_label_/_label_expr/_undefined (an element bound to a constant n is the '
+                 "two's complement of n at the directive's width for -128..255 resp. -32768..65535 and a diagnostic outside; a label is its address, or a "
+                 'diagnostic when it does not fit a byte; an undefined symbol is a diagnostic), C05_list_literals_unchanged, kernel-checked programs '
+                 'C05_program_list_labels (T FDB L1,L2,T,$1234,L1+1,L2-L1), C05_program_list_symbols, C05_program_list_rejected; '
+                 'C05_finding_list_symbol_fixed. No known finding is left for C05.',
          'design_ref': 'DESIGN.md section 5 C05, section 6 D',
-         'note': 'known finding C2 (lists only); D3 repaired by d74c37d; trusted: Lean kernel, correspondence, byte-exact oracle on the emitted IMAGE',
+         'note': 'no known finding left (C2 repaired by e6da74c, D3 by d74c37d); trusted: Lean kernel, correspondence, byte-exact oracle on the emitted IMAGE',
          'technique': 'Lean 4 proof (data-directive emission lemmas by induction over value lists / string / count) + differential correspondence + byte-exact '
                       'oracle'},
  'C07': {'text': 'Lean theorem C07_full : C07_Statement - (a) C07_write_list: for EVERY valid fill order and file list list(write fs) = norm fs; (b) '
